@@ -515,6 +515,10 @@ def check_forms(res):
         for dt in (np.int8, np.int16, np.int32, np.int64, np.uint8, np.uint16, np.uint32, np.uint64):
             if yi.min() >= np.iinfo(dt).min and yi.max() <= np.iinfo(dt).max:
                 forms[np.dtype(dt).name] = yi.astype(dt)
+        if rname == "zigzag":
+            # narrow floating-point records whose adjacent differences overflow in their own precision
+            forms["float16-wide"] = np.array([40000.0, -40000.0, 30000.0, -30000.0, 40000.0, 0.0, 40000.0, -40000.0, 5.0, 5.0, -3.0, 9.0, 2.0, -1.0, 4.0, 0.0], dtype=np.float16)
+            forms["float32-wide"] = np.array([3.0e38, -3.0e38, 2.0e38, -2.0e38, 3.0e38, 0.0, 3.0e38, -3.0e38, 5.0, 5.0, -3.0, 9.0, 2.0, -1.0, 4.0, 0.0], dtype=np.float32)
         for fname, fn in funcs.items():
             if fname.startswith("fdepsd") and rname != "sine-mix":
                 continue
@@ -527,6 +531,18 @@ def check_forms(res):
             for form, y in forms.items():
                 case = dict(part="forms", rec=rname, fn=fname, form=form)
                 snap = y.copy()
+                if form.endswith("-wide"):
+                    if "rainflow" in fname:
+                        continue  # (c_rain takes what is safely castable; decided in C05)
+                    try:
+                        base_w = fn(y.astype(np.float64))
+                        got_w = fn(y)
+                        okw = all(np.asarray(a).shape == np.asarray(b).shape and np.array_equal(np.asarray(a, float), np.asarray(b, float), equal_nan=True) for a, b in zip(got_w, base_w))
+                        if not okw:
+                            msgs.append((case, "%s: a %s record with large swings gives a different result than the same values as float64" % (fname, form), "forms-diff"))
+                    except Exception as e:  # noqa
+                        msgs.append((case, "%s raised %r for a %s record with large swings" % (fname, e, form), "forms-raise"))
+                    continue
                 try:
                     got = fn(y)
                 except Exception as e:  # noqa
